@@ -475,6 +475,28 @@ func (e *SpecEnv) call(x *ast.CallExpr) Term {
 				}
 			}
 			return Term{S: or(eq(r, "0"), "(>= "+r+" "+e.old.alloc+")"), T: types.Typ[types.Bool]}
+		case "cidlen", "cidbyte":
+			// byte form of a cid.Cid value (pure functions of the value): its length and k-th byte
+			a := e.eval(x.Args[0])
+			if a.T == nil || u.c.sortOf(a.T) != "S_cid_Cid" {
+				return e.fail("%s needs a cid.Cid value", id.Name)
+			}
+			u.declareCidGhost()
+			if id.Name == "cidlen" {
+				return Term{S: "(cid.bytelen " + a.S + ")", T: types.Typ[types.Int]}
+			}
+			k := e.eval(x.Args[1])
+			return Term{S: fmt.Sprintf("(select (cid.bytes %s) %s)", a.S, u.toIdxSpec(k)), T: types.Typ[types.Uint8]}
+		case "allocated":
+			// allocated(x): x's storage exists in the current state (so anything allocated later is different from it)
+			a := e.eval(x.Args[0])
+			r := a.S
+			if a.T != nil {
+				if _, ok := a.T.Underlying().(*types.Slice); ok {
+					r = sRef(a.S)
+				}
+			}
+			return Term{S: and("(<= 0 "+r+")", "(< "+r+" "+e.curState().alloc+")"), T: types.Typ[types.Bool]}
 		case "isErr":
 			// errors.Is(err, target)
 			a := e.eval(x.Args[0])
@@ -632,7 +654,30 @@ func (e *SpecEnv) call(x *ast.CallExpr) Term {
 			return e.convert(e.eval(x.Args[0]), t)
 		}
 	}
-	// method call on a value: only pure contracted methods could be supported; not yet
+	// method call x.M(args) of a pure contracted repository method
+	if se, ok := x.Fun.(*ast.SelectorExpr); ok {
+		recv := e.eval(se.X)
+		if recv.T != nil {
+			if obj, _, _ := types.LookupFieldOrMethod(recv.T, true, e.pkg, se.Sel.Name); obj != nil {
+				if f, ok := obj.(*types.Func); ok {
+					if ct, _ := u.eng.contractFor(f); ct != nil && ct.Pure {
+						sig := f.Type().(*types.Signature)
+						args := []Term{recv}
+						for k, a := range x.Args {
+							t := e.eval(a)
+							if k < sig.Params().Len() {
+								t = u.coerceSpec(t, sig.Params().At(k).Type())
+								t.T = sig.Params().At(k).Type()
+							}
+							args = append(args, t)
+						}
+						return u.pureFuncApp(f, args, 0)
+					}
+					return e.fail("method %s is not a pure contracted method", se.Sel.Name)
+				}
+			}
+		}
+	}
 	return e.fail("unsupported call in contract: %s", u.exprText(x))
 }
 
